@@ -31,6 +31,7 @@ type runner struct {
 	ran    bool
 	out    *outcome
 	trace  []string
+	auth   []string
 }
 
 var dirNames = []string{"c2s", "s2c"}
@@ -47,7 +48,11 @@ func newRunner(r *vh.Rand) vh.Runner {
 	if zrtt != "none" {
 		client, retry, vn = "plain", false, "none"
 	}
-	rn.plan = append(rn.plan, fmt.Sprintf("scn client=%s retry=%s vn=%s chain=%s zrtt=%s", client, boolTxt(retry), vn, chain, zrtt))
+	netMode := "ok"
+	if zrtt == "none" && vn != "fail" {
+		netMode = pickS(r, []string{"ok", "blackhole", "hsblock"}, 94, 2, 4)
+	}
+	rn.plan = append(rn.plan, fmt.Sprintf("scn client=%s retry=%s vn=%s chain=%s zrtt=%s net=%s", client, boolTxt(retry), vn, chain, zrtt, netMode))
 	nf := r.Pick(40, 30, 20, 10)
 	for i := 0; i < nf; i++ {
 		kind := pickS(r, []string{"drop", "dup", "delay", "flip", "trunc"}, 40, 20, 15, 20, 5)
@@ -117,6 +122,12 @@ func (rn *runner) GenOp(r *vh.Rand, i int) string {
 	if k == len(rn.trace) && rn.out != nil && rn.out.deadline != "" {
 		return "deadline"
 	}
+	if rn.out != nil && rn.out.deadline == "" {
+		k++ // no deadline line in this case
+	}
+	if a := k - len(rn.trace) - 1; a >= 0 && a < len(rn.auth) {
+		return fmt.Sprintf("auth %d", a)
+	}
 	return ""
 }
 
@@ -141,7 +152,7 @@ func (rn *runner) Exec(op string) string {
 			return "skip"
 		}
 		m := kv(f[1:])
-		rn.spec = scnSpec{client: m["client"], retry: m["retry"] == "1", vn: m["vn"], chain: m["chain"], zrtt: m["zrtt"]}
+		rn.spec = scnSpec{client: m["client"], retry: m["retry"] == "1", vn: m["vn"], chain: m["chain"], zrtt: m["zrtt"], net: m["net"]}
 		if rn.spec.client == "" {
 			rn.spec.client = "plain"
 		}
@@ -192,6 +203,7 @@ func (rn *runner) Exec(op string) string {
 		for _, d := range sc.trace {
 			rn.trace = append(rn.trace, d.line)
 		}
+		rn.auth = sc.auth
 		return rn.out.txt() + fmt.Sprintf(" ntrace=%d", len(rn.trace))
 	case "pkt":
 		if len(f) < 2 {
@@ -202,6 +214,15 @@ func (rn *runner) Exec(op string) string {
 			return "skip"
 		}
 		return rn.trace[k]
+	case "auth":
+		if len(f) < 2 {
+			return "skip"
+		}
+		k := int(vh.Atoi64(f[1]))
+		if k < 0 || k >= len(rn.auth) {
+			return "skip"
+		}
+		return rn.auth[k]
 	case "deadline":
 		if rn.out == nil || rn.out.deadline == "" {
 			return "skip"
